@@ -2142,3 +2142,48 @@ func ruleTableArgs(c *Ctx) {
 		c.check(okc, R, "tableInsert:two-or-three-arguments", p.pos(fn.Pos()), "with 1, 4 or 5 arguments the function raises before it touches the table", "table.insert does not reject a call with more than three arguments (table.insert(t, 1, 2, 3) quietly inserts 2 at position 1); the manual defines the two- and the three-argument form only")
 	}
 }
+
+// ruleStdStreams: F95. A standard stream belongs to the process (the host and every other state write
+// to it): close never releases its descriptor, and the library marks the three handles it creates.
+func ruleStdStreams(c *Ctx) {
+	const R = "R19-reconcile"
+	p := c.P
+	fn := c.need(R, "lua", "fileCloseAux")
+	if fn == nil {
+		return
+	}
+	g := p.G(fn)
+	var closeCall ssa.Instruction
+	allInstrs(fn, func(in ssa.Instruction) {
+		if pk, n, ok := stdCall(in); ok && pk == "os" && n == "File.Close" {
+			closeCall = in
+		}
+	})
+	if closeCall == nil {
+		c.und(R, "fileCloseAux:standard-stream-not-released", p.pos(fn.Pos()), "the descriptor's Close call was not found")
+		return
+	}
+	// F95: a standard stream belongs to the process (the host and every other state write to it): it is
+	// never released; the library marks the three handles it creates for them
+	stdF := p.Field("lua", "lFile", "std")
+	guarded := false
+	if stdF != nil {
+		for _, cd := range g.CondsAtInstr(closeCall) {
+			if _, ok := loadsField(cd.V, stdF); ok && !cd.Sense {
+				guarded = true
+			}
+		}
+	}
+	c.check(guarded, R, "fileCloseAux:standard-stream-not-released", p.ipos(closeCall), "the descriptor is closed only for a handle that is not a standard stream", "close releases the descriptor of a standard stream: io.stdout:close() in one state closes the process's standard output for the host and for every other state")
+	if oi := c.need(R, "lua", "OpenIo"); oi != nil && stdF != nil {
+		marks := false
+		allInstrs(oi, func(in ssa.Instruction) {
+			if st, ok := isFieldStore(in, stdF); ok {
+				if b, isc := constBool(st.Val); isc && b {
+					marks = true
+				}
+			}
+		})
+		c.check(marks, R, "OpenIo:marks-standard-streams", p.pos(oi.Pos()), "the handles created for stdin/stdout/stderr are marked", "OpenIo does not mark the handles it creates for the standard streams: close treats them like ordinary files")
+	}
+}
